@@ -41,6 +41,9 @@ CHECKS = {
  "C08": dict(text="Proof (Coq): for every event sequence of any number of redo processes (start, nested begin, token read, cheat, reap with/without cheat byte, release, self-test, exit) the quantity Q = T - C + sum(my - cheats) + J - L is conserved; all books and pipes stay non-negative; working jobs <= n + outstanding cheats; the top-level self-test cannot fail; the tokenless exit of finding F7 is exactly the event the model refuses. Tie: trace validation -- every token-book event reported by the hooked implementation in real parallel builds (-j1..8, log capture on/off, failing builds, inherited jobserver) is replayed through the extracted model, which must accept it and reproduce the reported book and pipe writes. Oracles: self-test message, inherited pipe content, measured work overlap.",
     note=TB + " A-PIPE; the hook verif_token_event is trusted to report the book after each mutation; abort paths (abandoned jobs) are outside the model.",
     technique="Coq invariant proof over a transition system + trace validation of the implementation's own token events", ref="5/C08"),
+ "C10": dict(text="Proof (Coq, partial): while a job installs its output the target shows the old bytes until the very last effect and the complete new bytes after it, nothing in between; the enumerated effect sequence is the one record_new_state performs; a failing job never touches the target. The crash state between the rename and the recording commit is finding F8: its refutation is evaluated on the serial model. Decision on the implementation (fault enumeration): an LD_PRELOAD shim numbers every state-changing call (rename, unlink, create/truncate, ftruncate, writes to the state database and its WAL) of every process of a build; for every kill point the calling redo process or the whole process group is killed immediately before the call, then recovery (redo-ifchange; edit a source; redo-ifchange) is checked: termination, exit 0, every target correct, nothing marked overridden, the edit propagated. Known findings F8 and F18 are recognised by their window in the call log.",
+    note=TB + " A-SQLITE-ATOMIC; the shim sees calls made through libc; quick tier samples the database writes (every fourth), thorough tier takes every call.",
+    technique="Coq proof of crash-prefix structure + exhaustive kill-point enumeration on the implementation", ref="5/C10"),
  "C11": dict(text="Proof (Coq): a job for an existing file that is not redo's own (never generated, overridden, or stamp no longer the recorded one) returns 0 and leaves every file as it was (C11_user_file_untouched); dirtiness checks and query commands touch no file; finishing a job touches only its own target and $3. " + SERIAL + PARTIAL,
     note=TB + " A-STAMP: a user replacement with identical mtime and size is indistinguishable by design.",
     technique="Coq proof of the guard conditions on start_self + model/implementation differential check + user-file preservation oracle", ref="5/C11"),
